@@ -33,6 +33,7 @@ type seqCfg struct {
 	idxInt     int64
 	bodyInC    int64
 	bodyMax    int64
+	listKey    uint32 // thresholdListKey: a node with fewer keys lists its items instead of its children
 	home       string
 }
 
@@ -103,6 +104,7 @@ func (s *seqStore) applyConf() {
 	config.MCConf.BodyInC = c.bodyInC
 	config.MCConf.MaxKeyLen = 250
 	store.VerifSetSecsBeforeDump(-1)
+	store.VerifSetThresholdListKey(c.listKey)
 }
 
 func (s *seqStore) open() (err error) {
@@ -314,6 +316,53 @@ func (s *seqStore) doMeta(c *Ctx, key string) {
 	default:
 		c.line("meta %s => %s", hx([]byte(key)), string(item.Body))
 	}
+}
+
+// doList: the directory listing used for replica synchronisation, `get @<hex prefix>`
+func (s *seqStore) doList(c *Ctx, prefix string) {
+	var item *mc.Item
+	var err error
+	p := guard(func() { item, err = s.cl.Get("@" + prefix) })
+	pp := prefix
+	if pp == "" {
+		pp = "-"
+	}
+	switch {
+	case p != "":
+		c.line("list %s => PANIC", pp)
+	case err != nil:
+		c.line("list %s => ERR", pp)
+	case item == nil:
+		c.line("list %s => NIL", pp)
+	default:
+		body := strings.TrimSuffix(string(item.Body), "\n")
+		c.line("list %s => [%s]", pp, strings.ReplaceAll(body, "\n", "|"))
+	}
+}
+
+// listProbes: prefixes of the hashes of the pool keys (all lengths that matter) and some neighbours
+func (s *seqStore) listProbes(r *RNG, keys []string) []string {
+	seen := map[string]bool{"": true}
+	out := []string{""}
+	add := func(p string) {
+		if !seen[p] {
+			seen[p] = true
+			out = append(out, p)
+		}
+	}
+	for _, k := range keys {
+		h := fmt.Sprintf("%016x", store.VerifKeyHash([]byte(k)))
+		for _, n := range []int{1, 2, 3, 4, 5, 8, 16} {
+			if r.Chance(35) {
+				add(h[:n])
+			}
+		}
+	}
+	for i := 0; i < 3; i++ {
+		add(fmt.Sprintf("%x", r.Intn(16)))
+		add(fmt.Sprintf("%02x", r.Intn(256)))
+	}
+	return out
 }
 
 func (s *seqStore) doSet(c *Ctx, key string, body []byte, flag uint32, rev int, ts uint32) {
@@ -569,6 +618,7 @@ func genSeqCfg(r *RNG, home string) seqCfg {
 	c.idxInt = []int64{300, 1024, 4096}[r.Intn(3)]
 	c.bodyInC = []int64{64, 4096}[r.Intn(2)]
 	c.bodyMax = 1 << 20
+	c.listKey = []uint32{1, 2, 4, 8, 256}[r.Intn(5)]
 	return c
 }
 
@@ -581,8 +631,8 @@ func cfgLine(c seqCfg) string {
 	if c.checkVHash {
 		cv = 1
 	}
-	return fmt.Sprintf("nb=%d served=%s height=%d checkvhash=%d dfmax=%d splitcap=%d idxint=%d bodyinc=%d bodymax=%d",
-		c.nb, strings.Join(sv, ","), c.height, cv, c.dfmax, c.splitCap, c.idxInt, c.bodyInC, c.bodyMax)
+	return fmt.Sprintf("nb=%d served=%s height=%d checkvhash=%d dfmax=%d splitcap=%d idxint=%d bodyinc=%d bodymax=%d listkey=%d",
+		c.nb, strings.Join(sv, ","), c.height, cv, c.dfmax, c.splitCap, c.idxInt, c.bodyInC, c.bodyMax, c.listKey)
 }
 
 func engineSeq(c *Ctx) {
@@ -736,9 +786,15 @@ func seqCase(c *Ctx, r *RNG, id string, cfg seqCfg) {
 			s.flushAll()
 			c.line("flush")
 			c.count("op.flush")
-		case p < 91:
+		case p < 89:
 			s.doGet(c, k)
 			c.count("op.get")
+		case p < 91:
+			pr := s.listProbes(r, keys)
+			for j := 0; j < 4 && j < len(pr); j++ {
+				s.doList(c, pr[r.Intn(len(pr))])
+			}
+			c.count("op.list")
 		case p < 93 && c.mix != "full":
 			s.doMeta(c, k)
 			c.count("op.meta")
@@ -809,6 +865,10 @@ func seqCase(c *Ctx, r *RNG, id string, cfg seqCfg) {
 		s.doGet(c, k)
 		s.doMeta(c, k)
 	}
+	for _, p := range s.listProbes(r, keys) {
+		s.doList(c, p)
+		c.count("op.list")
+	}
 	s.flushAll()
 	if f := theHub.takeFatal(); f != "" {
 		c.line("fatal => %s", strings.ReplaceAll(f, "\n", " "))
@@ -869,10 +929,15 @@ func seqReplay(c *Ctx, base string) {
 					cfg.bodyInC = v
 				case "bodymax":
 					cfg.bodyMax = v
+				case "listkey":
+					cfg.listKey = uint32(v)
 				}
 			}
 			if cfg.bodyMax == 0 {
 				cfg.bodyMax = 1 << 20
+			}
+			if cfg.listKey == 0 {
+				cfg.listKey = 256
 			}
 			s = &seqStore{cfg: cfg}
 			curStore = s
@@ -894,6 +959,12 @@ func seqReplay(c *Ctx, base string) {
 			s.doGet(c, string(unhx(l.args[0])))
 		case "meta":
 			s.doMeta(c, string(unhx(l.args[0])))
+		case "list":
+			pp := l.args[0]
+			if pp == "-" {
+				pp = ""
+			}
+			s.doList(c, pp)
 		case "flush":
 			s.flushAll()
 			if f := theHub.takeFatal(); f != "" {
